@@ -261,7 +261,7 @@ theorem estimateMemory_exact {p : Nat} (h : p < 2 ^ 31) :
 
 /-- FINDING (documentation bug, tables.go `estimateMemory`): for admissible `p ≥ 2^31` the product
     `char*(char+1)*(UintSize/16)` wraps, so the "lower bound" is far too small.  Witness: the
-    smallest prime above `2^31` is admitted by `Define`, the estimate is 184 GiB whereas the table
+    smallest prime above `2^31` is accepted by `Define`, the estimate is 184 GiB whereas the table
     needs 16 EiB. -/
 example : (2147483659 - 1 < 2 ^ 32) ∧ Prime.estimateMemory 2147483659 = 192937984 ∧
     2147483659 * (2147483659 + 1) * 4 / 1024 = 18014398702419968 := by decide
